@@ -297,6 +297,30 @@ root("inheritem",
      [q("Sub[1]", "foo"), q("Sub[1]", "bar", 1), q("Base", "foo")])
 
 
+# 16. references read only inside nested code objects (comprehension in a comprehension, lambda in a lambda)
+root("nestedcode",
+     {"spaces": {"S": {"refs": {"r": 1},
+                       "cells": {"deep": L + "sum(sum(r + j for j in range(2)) for i in range(x + 1))",
+                                 "lam": L + "(lambda: (lambda: r + x)())()",
+                                 "top": L + "deep(x) + lam(x)"}}}},
+     [q("S", "deep", 1), q("S", "lam", 1), q("S", "top", 1)],
+     [set_ref("S", "r", 2), del_ref("S", "r"), set_ref("", "r", 7), set_cached("S", "deep", False)],
+     [q("S", "top", 1), q("S", "deep", 1)])
+
+# 17. ItemSpaces nested in ItemSpaces: discarding the outer one discards everything computed below it
+root("nesteditem",
+     {"spaces": {"P": {"formula": "lambda i: None", "refs": {"r2": 1},
+                       "cells": {"c": "lambda: tick() + i + r2"},
+                       "spaces": {"Q": {"formula": "lambda j: None",
+                                        "cells": {"d": L + "i * 10 + j + x"}}}},
+                 "S": {"refs": {"P": obj("P")}, "cells": {"it": L + "P[x].Q[2].d(1)"}}}},
+     [q("P[1].Q[2]", "d", 1), q("S", "it", 1), q("P[1]", "c"), q("P[2].Q[2]", "d", 0)],
+     [{"op": "del_item", "sp": "P", "args": [1]}, {"op": "clear_items", "sp": "P"},
+      {"op": "del_item", "sp": "P[1].Q", "args": [2]}, new_cells("P", "e", "lambda: tick() + 5"),
+      set_ref("P", "r2", 2), set_formula("P.Q", "d", L + "i * 10 + j + x + 100"), {"op": "model_clear_all"}],
+     [q("P[1].Q[2]", "d", 1), q("S", "it", 1)])
+
+
 def _add_clear_ops():
     for r in ROOTS.values():
         seen = set()
